@@ -503,10 +503,23 @@ pub fn c08(ctx: &Ctx) -> PropResult {
             cases.push(Case::new(Kind::Parse, format!("{}1", o.repeat(depth))).tag("nesting"));
         }
     }
+    // (appended) characters of other scripts and invisible characters at the start of a token, after and between the
+    // token exemplars; many syntax errors in one input (every one is reported, the parser always moves on)
+    for c in ["\u{feff}", "\u{a0}", "\u{200b}", "٣", "½", "²", "Ⅷ", "①", "ß", "ǅ", "ª", "\u{2028}", "\u{85}", "\u{301}", "𝟙", "一"] {
+        for ctx_ in ["@", "@ <- 1", "x <- @", "x <- @1", "x <- 1@", "DISPLAY(@)", "@x <- 1", "x@ <- 1", "IF (@) { }", "x <- [@, 1]", "f(@)", "x <- \"s\" + @", "@\n@", "REPEAT @ TIMES { }", "PROCEDURE @() { }", "IMPORT MOD @"] {
+            cases.push(Case::new(Kind::Parse, ctx_.replace('@', c)).tag("odd-character"));
+        }
+    }
+    for n in [1usize, 50, 99, 100, 101, 102, 128, 200, 256, 300] {
+        for bad in ["IF )\n", "x <- (1\n", "x <- * 2\n", "f(1,, 2)\n", "REPEAT 2 { }\n", "x <- ]\n", "ELSE\n"] {
+            cases.push(Case::new(Kind::Parse, bad.repeat(n)).tag("many-syntax-errors"));
+            cases.push(Case::new(Kind::Parse, format!("{}DISPLAY(1)\n", bad.repeat(n))).tag("many-syntax-errors"));
+        }
+    }
     let stats = run_cases(&ctx.driver, cases, &parse_oracle, &no_known, ctx.threads);
     PropResult {
         stats,
-        rule: format!("every sequence of <= {max_len} tokens over all {k} token kinds rendered to text (exhaustive), random sequences to 10 tokens, every string of length <= 2 over the lexical alphabet, token deletion/duplication/transposition/truncation of repository programs, bracket nesting to depth 200; every diagnostic is rendered with {{:?}}; non-trivial = the text lexes (parser reached); IMPORT with every string position empty / blank / odd in nine forms"),
+        rule: format!("every sequence of <= {max_len} tokens over all {k} token kinds rendered to text (exhaustive), random sequences to 10 tokens, every string of length <= 2 over the lexical alphabet, token deletion/duplication/transposition/truncation of repository programs, bracket nesting to depth 200; every diagnostic is rendered with {{:?}}; non-trivial = the text lexes (parser reached); IMPORT with every string position empty / blank / odd in nine forms; characters of other scripts and invisible characters at the start of a token in sixteen contexts; 1 .. 300 repetitions of seven kinds of syntax error"),
         exhaustive: false,
         notes: vec![],
     }
